@@ -1,1 +1,128 @@
-(** Props/C02.v — placeholder, to be written. *)
+(** Props/C02.v — control-of-flow signals are never treated as errors and unwind exactly
+    their scope.  The interpreter has one place per layer where an exception could be
+    intercepted (step decorators, retry, call, group, failure handler, group runner, pype,
+    pipeline, root); each theorem below is that layer, for ALL behaviours of everything
+    nested inside it ([rg], [rp] arbitrary). *)
+From PV Require Import Engine EngineProofs.
+Open Scope string_scope.
+Notation RG := (list val -> option string -> option string -> st -> R).
+Notation RP := (string -> option (list val) -> option string -> option string -> st -> R).
+
+(** step decorators: an instruction passes untouched whatever [swallow] says, and nothing is
+    added to runErrors (the state is exactly the one the instruction left) *)
+Theorem C02_swallow_never_suppresses : forall (rg : RG) (rp : RP) sp k s sg s1,
+  as_bool s (s_run sp) = Ok true -> as_bool s (s_skip sp) = Ok false ->
+  inner rg rp sp k s = (ORaise (RSig sg), s1) ->
+  cond rg rp sp k s = (ORaise (RSig sg), s1).
+Proof. exact cond_signal. Qed.
+Print Assumptions C02_swallow_never_suppresses.
+
+(** retry: an instruction ends the retry loop at once: no further attempt, no sleep *)
+Theorem C02_retry_never_reattempts : forall (rg : RG) (rp : RP) rc sp k max n s sg s1,
+  invoke rg rp sp (mkcnt (k_while k) (k_for k) (Some n))
+         (set_ctx s (sset "retryCounter" (VInt n) (ctx s))) = (ORaise (RSig sg), s1) ->
+  retry_iter rg rp rc sp k max n s = (IRaise (ORaise (RSig sg)), s1).
+Proof. exact retry_iter_signal. Qed.
+Print Assumptions C02_retry_never_reattempts.
+
+Theorem C02_poll_stops_on_raise : forall fuel iter interval max i s o s1,
+  iter (i + 1)%Z s = (IRaise o, s1) ->
+  poll (S fuel) iter interval max i s = (IRaise o, s1).
+Proof. exact poll_raise. Qed.
+Print Assumptions C02_poll_stops_on_raise.
+
+(** call: a Stop raised inside the called groups leaves the call step as that instruction,
+    not as a (swallowable, retryable) HandledError; errors are marked handled *)
+Theorem C02_call_passes_instructions : forall (rg : RG) (rp : RP) sp k s c s1,
+  run_body rp sp s = (ORaise (RSig (SCall c)), s1) ->
+  invoke rg rp sp k s =
+  (let '(o, s2) := rg (c_groups c) (c_success c) (c_failure c) s1 in
+   let s3 := reset_counters sp k c s2 in
+   match o with
+   | OOk => (OOk, s3)
+   | ORaise (RSig sg) => (ORaise (RSig sg), s3)
+   | ORaise r => (OHandled r, s3)
+   | OHandled _ => (OUnsup, s3)
+   | OUnsup => (OUnsup, s3)
+   end).
+Proof. exact invoke_call. Qed.
+Print Assumptions C02_call_passes_instructions.
+
+(** group runner: an instruction never triggers the failure handler *)
+Theorem C02_no_failure_handler : forall lib (rg : RG) (rp : RP) g gs names success failure s sg s1,
+  names_of (g :: gs) = Some names ->
+  main_part lib rg rp names success s = (ORaise (RSig sg), s1) ->
+  groups_body lib rg rp (g :: gs) success failure s = (ORaise (RSig sg), s1).
+Proof. exact groups_body_signal. Qed.
+Print Assumptions C02_no_failure_handler.
+
+(** scopes.  stopstepgroup ends only the current step-group: the group reports success, so
+    (C01_groups_in_order) later groups and the success handler still run *)
+Theorem C02_stopstepgroup_scope : forall lib (rg : RG) (rp : RP) g s s1,
+  run_steps rg rp (get_steps lib g s) s = (ORaise (RSig SStopStepGroup), s1) ->
+  run_group lib rg rp g false s = (OOk, s1).
+Proof. exact run_group_stopstepgroup. Qed.
+Print Assumptions C02_stopstepgroup_scope.
+
+Theorem C02_stop_leaves_group : forall lib (rg : RG) (rp : RP) g b s s1 sg,
+  run_steps rg rp (get_steps lib g s) s = (ORaise (RSig sg), s1) ->
+  sg = SStop \/ sg = SStopPipeline ->
+  run_group lib rg rp g b s = (ORaise (RSig sg), s1).
+Proof. exact run_group_other_signal. Qed.
+Print Assumptions C02_stop_leaves_group.
+
+(** stoppipeline ends only the current pipeline, which reports success to whoever ran it
+    (the parent's pype step then carries on) ... *)
+Theorem C02_stoppipeline_scope : forall lib (rg : RG) name pl groups su fa s s1,
+  find (fun p => String.eqb (fst p) name) lib = Some pl ->
+  rg (effective_groups groups)
+     (if defaulted groups su fa then Some "on_success" else su)
+     (if defaulted groups su fa then Some "on_failure" else fa)
+     (set_stack s (name :: stack s)) = (ORaise (RSig SStopPipeline), s1) ->
+  load_and_run lib rg name groups su fa s = (OOk, set_stack s1 (tl (stack s1))).
+Proof. exact load_and_run_stoppipeline. Qed.
+Print Assumptions C02_stoppipeline_scope.
+
+(** ... stop leaves every pipeline: through load_and_run, through the parent's pype step *)
+Theorem C02_stop_leaves_pipeline : forall lib (rg : RG) name pl groups su fa s s1,
+  find (fun p => String.eqb (fst p) name) lib = Some pl ->
+  rg (effective_groups groups)
+     (if defaulted groups su fa then Some "on_success" else su)
+     (if defaulted groups su fa then Some "on_failure" else fa)
+     (set_stack s (name :: stack s)) = (ORaise (RSig SStop), s1) ->
+  load_and_run lib rg name groups su fa s = (ORaise (RSig SStop), set_stack s1 (tl (stack s1))).
+Proof. exact load_and_run_stop. Qed.
+Print Assumptions C02_stop_leaves_pipeline.
+
+Theorem C02_pype_passes_instructions : forall pa sg s',
+  pype_guard pa (ORaise (RSig sg), s') = (ORaise (RSig sg), s').
+Proof. exact pype_guard_signal. Qed.
+Print Assumptions C02_pype_passes_instructions.
+
+(** and in each case the run reports success to its caller *)
+Theorem C02_reports_success : forall fuel lib name d gs su fa j s1 sg,
+  run_pipeline fuel lib name gs su fa (mkst d [] [] [] 0 j) = (ORaise (RSig sg), s1) ->
+  (sg = SStop \/ sg = SStopPipeline \/ sg = SStopStepGroup) ->
+  api_run fuel lib name d gs su fa j = (OOk, s1).
+Proof. exact api_run_stop. Qed.
+Print Assumptions C02_reports_success.
+
+(** * Non-vacuity: stop under swallow + retry inside a called group inside a child pipeline *)
+Definition mk (name : string) (b : body) (inn : dict) (sw : val) (rt : option rcfg) : step :=
+  mkstep name b (Some inn) None None rt (VBool true) (VBool false) sw None (Some (1, 5)%Z).
+Definition rc3 := mkr (Some (VInt 3)) (VInt 0) None None (VInt 0) None None None.
+Definition lib2 : library :=
+  [("main", [("steps", Some [mk "vprobe" BProbe [(VStr "ptag", VStr "m0")] (VBool false) None;
+                             mk "pypyr.steps.pype" BPype [(VStr "pype", VDict [(VStr "name", VStr "child")])] (VBool true) None;
+                             mk "vprobe" BProbe [(VStr "ptag", VStr "m-after")] (VBool false) None])]);
+   ("child", [("steps", Some [mk "pypyr.steps.call" BCall [(VStr "call", VStr "g")] (VBool true) (Some rc3);
+                              mk "vprobe" BProbe [(VStr "ptag", VStr "c-after")] (VBool false) None]);
+              ("g", Some [mk "vprobe" BProbe [(VStr "ptag", VStr "g0")] (VBool false) None;
+                          mk "pypyr.steps.stop" BStop [] (VBool false) None])])].
+Definition tags (r : R) : list val :=
+  map (fun e => match e with VList (t :: _) => t | _ => VNone end) (trace (snd r)).
+
+Example C02_nonvacuous :
+  let r := api_run EFUEL lib2 "main" [] None None None (1 # 4) in
+  tags r = [VStr "m0"; VStr "g0"] /\ fst r = OOk /\ sget "runErrors" (ctx (snd r)) = None.
+Proof. vm_compute. repeat split; reflexivity. Qed.
